@@ -437,6 +437,26 @@ def run(F, R, tier):
         R.check(okw, "C09.R3", "C09.R3:%s:contract" % wf["id"], "%s:%s" % (wf["file"], wf["line"]),
                 "%s() = set_key(%s)" % (nm, "Some(key)" if want == "Some" else "None"), "%s passes %s to set_key" % (nm, v))
 
+    # helper contract: the in-memory guid the loop compares with is read from the ONE key cell (get_key() round trip), never from a second
+    # copy that clear_key() could leave behind
+    for nm, fld in (("get_current_key_guid", "guid"), ("get_current_key_value", "key"), ("get_current_key_incarnation", "incarnationId")):
+        gf = F.body_of(KW + "KeyKeeperSharedState::" + nm)
+        if not gf:
+            if nm == "get_current_key_guid":
+                R.fail("C09.R3", "C09.R3:anchor-missing:%s" % nm, "-", "anchor-missing=KeyKeeperSharedState::%s" % nm)
+            continue
+        Bk = mir.Body(gf, F)
+        R.touched(gf["id"])
+        org = Bk.origins({"k": "copy", "p": {"l": 0, "p": []}}, deep=True)
+        okg = bool(org) and all((o[0] == "agg" and str(o[1]).endswith(("Option::None", "Result::Ok", "Result::Err", "Option::Some"))) or
+                                (o[0] == "call" and q.ends(o[1], "KeyKeeperSharedState::get_key") and
+                                 (tuple(o[3]) == ("@Err", "0") or (tuple(o[3][:4]) == ("@Ok", "0", "@Some", "0") and tuple(o[3][4:]) == (fld,))))
+                                for o in org) and any(o[0] == "call" for o in org)
+        R.check(okg, "C09.R3", "C09.R3:%s:reads-the-key-cell" % gf["id"], "%s:%s" % (gf["file"], gf["line"]),
+                "%s() = get_key().map(|k| k.%s): derived from the single key cell of the actor" % (nm, fld),
+                "%s() is not (only) derived from get_key(): %s - a second copy of the %s can go stale when the key is cleared or replaced"
+                % (nm, sorted(map(str, org)), fld))
+
     # the change detector must read every status field a redirect decision reads (otherwise a flip of that field alone is never acted on)
     from lib import deps
     det = set()
